@@ -81,7 +81,8 @@ TEXT = {'EQ': '==', 'NE': '!=', 'GT': '>', 'LT': '<', 'LTE': '<=', 'GTE': '>=', 
         'ELSE': 'else', 'TRUE': 'True', 'FALSE': 'False', 'NONE': 'None', 'DEL': 'del', 'FOR': 'for',
         'WHILE': 'while', 'BREAK': 'break', 'CONTINUE': 'continue', 'DEF': 'def', 'RAISE': 'raise',
         'ELIF': 'elif'}
-NAMES = ['a', 'b', 'c', 'f', 'g', 'x', 'y', 'k2', '_t', 'имя', '%user name%', '%a.b%', 'len', 'map']
+NAMES = ['a', 'b', 'c', 'f', 'g', 'x', 'y', 'k2', '_t', 'имя', '%user name%', '%a.b%', 'len', 'map',
+         'index', 'int', 'in_stock', 'notx', 'order', 'android', 'iffy', 'elsewhere', 'delta', 'Trueish', 'None_', 'forx', 'r', 'rr']
 NUMBERS = ['1', '2.5', '0', '007', '10.50', '3', '12345678901234567890123456789.5']
 STRINGS = ['"s"', "'q'", 'r"\\d+"', '"a\\"b"', '""', "'x y'", '"%z%"', '"# no comment"']
 SHORTS = ['+=', '-=', '*=', '/=']
@@ -218,3 +219,28 @@ def render_layout(types, rnd, bracket_newlines=0.25, extra_blanks=0.2, comments=
         pos += len(s)
         depth = depth_after
     return toks, ''.join(parts), spans
+
+
+def earlier_call(P, r):
+    """one arbitrary earlier call on the same parser: failed parses at bracket depth, abandoned or failing list_names, evals that fail or succeed"""
+    k = r.randrange(8)
+    try:
+        if k == 0:
+            P.parse(r.choice(['f(1, ', '[1, [2, ', '{"a": (', '1 + 2)', 'x = ]', '(((', 'a = [1,\n2,\n']))
+        elif k == 1:
+            g = P.list_names(r.choice(['a b c d', 'x + (y * [z', 'f(a, b)', 'total = sum([a, b']))
+            next(g, None)                      # abandoned midway
+        elif k == 2:
+            list(P.list_names(r.choice(['total(items', 'x + (y * [z', 'p $ q', 'a[(b', 'msg.', ')) x'])))
+        elif k == 3:
+            P.eval(r.choice(['1 +', 'nope', 'x = [1,\n2', '1 / 0', 'f = n => f(n)\nf(1)', 'q = 1\n[1][9]']), {}, None, 50)
+        elif k == 4:
+            P.parse('x = 1\ny = [2,\n3]\n')
+        elif k == 5:
+            P.eval('[1, 2, 3] | map(v => v * 2)')
+        elif k == 6:
+            any(n == 'b' for n in P.list_names('f(a, b) + [c'))
+        else:
+            P.eval('rows = [1, 2]\nrows[7]', {'nope': 1, 'u': 2})
+    except Exception:
+        pass
